@@ -221,18 +221,8 @@ func (cc *Chaincode) Invoke(stub shim.ChaincodeStubInterface) (r peer.Response) 
 		return shim.Error(errMsg)
 	}
 
-	if cc.contract.ContractConfig().GetOptions() != nil {
-		var (
-			swapMethods      = []string{"QuerySwapGet", "TxSwapBegin", "TxSwapCancel"}
-			multiSwapMethods = []string{"QueryMultiSwapGet", "TxMultiSwapBegin", "TxMultiSwapCancel"}
-			opts             = cc.contract.ContractConfig().GetOptions()
-		)
-
-		if OneOf(method, opts.GetDisabledFunctions()...) ||
-			(opts.GetDisableSwaps() && OneOf(method, swapMethods...)) ||
-			(opts.GetDisableMultiSwaps() && OneOf(method, multiSwapMethods...)) {
-			return shim.Error(fmt.Sprintf("invoke: finding method: method '%s' not found", function))
-		}
+	if cc.isMethodDisabled(method) {
+		return shim.Error(fmt.Sprintf("invoke: finding method: method '%s' not found", function))
 	}
 
 	// handle invoke and query methods executed without batch process
@@ -243,4 +233,21 @@ func (cc *Chaincode) Invoke(stub shim.ChaincodeStubInterface) (r peer.Response) 
 
 	// handle invoke method with batch process
 	return cc.BatchHandler(traceCtx, stub)
+}
+
+// isMethodDisabled reports whether the configuration in force disables the method.
+func (cc *Chaincode) isMethodDisabled(method string) bool {
+	opts := cc.contract.ContractConfig().GetOptions()
+	if opts == nil {
+		return false
+	}
+
+	var (
+		swapMethods      = []string{"QuerySwapGet", "TxSwapBegin", "TxSwapCancel"}
+		multiSwapMethods = []string{"QueryMultiSwapGet", "TxMultiSwapBegin", "TxMultiSwapCancel"}
+	)
+
+	return OneOf(method, opts.GetDisabledFunctions()...) ||
+		(opts.GetDisableSwaps() && OneOf(method, swapMethods...)) ||
+		(opts.GetDisableMultiSwaps() && OneOf(method, multiSwapMethods...))
 }
